@@ -40,6 +40,73 @@ impl Resp {
     }
 }
 
+/// how often a request of this family is evaluated a second time (1 = always)
+fn interfere_every(op: &str) -> u64 {
+    if op.starts_with("glob.") || op.starts_with("cpr.") {
+        16
+    } else if op.starts_with("derive.") || op.starts_with("typed.") || op.starts_with("acc.") || op == "total" {
+        4
+    } else {
+        2
+    }
+}
+
+/// unrelated calls into the crates between the two evaluations of a request: reads that fail and
+/// reads that succeed, with every flag setting, look-ups that hit late entries, normalisations whose
+/// results are then edited in place, more distinct glob patterns than a small cache holds
+fn interfere(op: &str) {
+    use std::str::FromStr;
+    // deb822, lossless and lossy
+    let _ = deb822_lossless::Deb822::from_str_relaxed("Bad\n-x\n");
+    if let Ok(d) = deb822_lossless::Deb822::from_str("A: 1\nB: 2\nA: 3\n\nC: d\n") {
+        for mut p in d.paragraphs() {
+            let _ = p.get("B");
+            p.set("Zz", "poked");
+        }
+    }
+    let _ = deb822_lossless::lossy::Deb822::from_reader(&b"Package"[..]);
+    let _ = deb822_lossless::lossy::Deb822::from_reader(&b"A: \xc3"[..]);
+    let _ = deb822_lossless::lossy::Deb822::from_str("X: y\n z\n");
+    let _ = deb822_lossless::lossy::Paragraph::from_str("nocolon");
+    // relations, lossless and lossy
+    use debian_control::lossless::relations::{Relation as LRel, Relations as LRels};
+    let _ = LRels::parse_relaxed("${x}, a (", true);
+    let _ = LRels::parse_relaxed("${x}, a (", false);
+    let _ = debian_control::lossy::Relations::from_str("a, b c [amd64 arm64], d");
+    let _ = debian_control::lossy::Relation::from_str("libfoo (>= 1.0) libbar <cross>");
+    let _ = debian_control::lossy::Relation::from_str("ok (= 1)");
+    if let Ok(r) = LRel::from_str("a") {
+        let mut w = r.wrap_and_sort();
+        w.set_archqual("zz");
+    }
+    if let Ok(r) = LRels::from_str("b, a") {
+        let w = r.wrap_and_sort();
+        if let Some(e) = w.get_entry(0) {
+            if let Some(mut x) = e.get_relation(0) {
+                x.set_archqual("zy");
+            }
+        }
+    }
+    // PGP: each error path, then a success
+    for t in [
+        "-----BEGIN PGP SIGNED MESSAGE-----\nHash: SHA256\n\nstale payload\n",
+        "-----BEGIN PGP SIGNED MESSAGE-----\n\np\n-----BEGIN PGP SIGNATURE-----\nstale signature\n",
+        "-----BEGIN PGP SIGNED MESSAGE-----\nHash: x\n",
+    ] {
+        let _ = debian_control::pgp::strip_pgp_signature(t);
+    }
+    // copyright: more distinct patterns than a small cache holds
+    if op.starts_with("glob.") || op.starts_with("cpr.") {
+        let mut t = String::from("Format: x\n");
+        for i in 0..70 {
+            t.push_str(&format!("\nFiles: interfere{}/*\nCopyright: c\nLicense: L{}\n", i, i));
+        }
+        if let Ok(c) = debian_copyright::lossless::Copyright::from_str(&t) {
+            let _ = c.find_files(std::path::Path::new("interfere3/x"));
+        }
+    }
+}
+
 fn dispatch(op: &str, args: &[&str]) -> Option<Resp> {
     if let Some(r) = pgp::handle(op, args) {
         return Some(r);
@@ -158,12 +225,41 @@ fn main() {
             let stdin = std::io::stdin();
             let stdout = std::io::stdout();
             let mut w = stdout.lock();
+            let mut nreq: u64 = 0;
             for line in stdin.lock().lines() {
                 let line = line.unwrap();
                 let mut parts = line.split('\t');
                 let op = parts.next().unwrap_or("");
                 let a: Vec<&str> = parts.collect();
-                let r = std::panic::catch_unwind(|| dispatch(op, &a));
+                let mut r = std::panic::catch_unwind(|| dispatch(op, &a));
+                // every operation of the line protocol is a function of its request: evaluated again
+                // after unrelated calls into the same crates (failed and successful reads, lookups,
+                // edits of values returned earlier) it must answer the same. This is what exposes
+                // state kept between calls — caches keyed too coarsely, scratch buffers left dirty by
+                // error paths, trees shared between results (seeded rounds 5 and 6).
+                nreq += 1;
+                if let Ok(Some(first)) = &r {
+                    if first.fail.is_none() && nreq % interfere_every(op) == 0 {
+                        let _ = std::panic::catch_unwind(|| interfere(op));
+                        let again = std::panic::catch_unwind(|| dispatch(op, &a));
+                        let same = match &again {
+                            Ok(Some(x)) => x.obs == first.obs && x.fail.is_none(),
+                            _ => false,
+                        };
+                        if !same {
+                            let second = match &again {
+                                Ok(Some(x)) => format!("{}{}", x.obs, x.fail.as_ref().map(|f| format!(" #FAIL:{}", f)).unwrap_or_default()),
+                                Ok(None) => "bad-op".to_string(),
+                                Err(_) => "PANIC".to_string(),
+                            };
+                            let obs = first.obs.clone();
+                            r = Ok(Some(Resp::with(
+                                obs,
+                                Some(format!("the answer depends on earlier calls: evaluated again after unrelated calls the same request answers {}", second.chars().take(300).collect::<String>())),
+                            )));
+                        }
+                    }
+                }
                 let s = match r {
                     Ok(Some(r)) => match r.fail {
                         Some(f) => format!("{}\t#FAIL:{}", r.obs, f.replace(['\t', '\n'], " ")),
